@@ -55,9 +55,10 @@ varintWidth varintPFORComputeThreshold(const uint64_t *values, uint32_t count,
     /* Create sorted copy for percentile calculation */
     uint64_t *sorted = malloc(count * sizeof(uint64_t));
     if (!sorted) {
-        /* Out of memory - return conservative estimate */
+        /* Out of memory - report failure (no width is valid for count > 0
+         * with zeroed metadata) */
         memset(meta, 0, sizeof(*meta));
-        return VARINT_WIDTH_8B;
+        return VARINT_WIDTH_INVALID;
     }
     memcpy(sorted, values, count * sizeof(uint64_t));
     qsort(sorted, count, sizeof(uint64_t), compare_uint64);
@@ -134,7 +135,10 @@ size_t varintPFOREncode(uint8_t *dst, const uint64_t *values, uint32_t count,
     uint8_t *start = dst;
 
     /* Compute metadata */
-    varintPFORComputeThreshold(values, count, threshold, meta);
+    if (varintPFORComputeThreshold(values, count, threshold, meta) ==
+        VARINT_WIDTH_INVALID) {
+        return 0; /* Out of memory */
+    }
 
     /* Write header: min, width, count */
     dst += varintTaggedPut64(dst, meta->min);
@@ -153,9 +157,9 @@ size_t varintPFOREncode(uint8_t *dst, const uint64_t *values, uint32_t count,
     if (meta->exceptionCount > 0) {
         exceptions = malloc(meta->exceptionCount * sizeof(Exception));
         if (!exceptions) {
-            /* Out of memory - fall back to encoding without exception tracking
-             * This will still produce valid output, just not optimal */
-            meta->exceptionCount = 0;
+            /* Out of memory - without the patch list every exception would be
+             * stored truncated to the frame width, i.e. silently corrupted */
+            return 0;
         }
     }
 
